@@ -165,6 +165,10 @@ impl Prog {
                     })
                     .partition(|(_, var, _)| var.starts_with("Report."));
 
+                if reports.len() > usize::from(u8::MAX) || controls.len() > usize::from(u8::MAX) {
+                    return Err(Error::from(String::from("too many variable definitions")));
+                }
+
                 for (is_volatile, var, typ) in reports {
                     scope.new_report(is_volatile, var, typ);
                 }
